@@ -111,7 +111,9 @@ func (b *Builder) TextShowGlyphs(seq *font.GlyphSeq) float64 {
 		}
 
 		b.emit(content.OpTextShowArray, out)
-		out = out[:0]
+		// The array is now part of the content stream: start a new one
+		// instead of overwriting its elements.
+		out = nil
 	}
 
 	xActual := 0.0
